@@ -10,7 +10,7 @@ cd $WT || exit 2
 git diff -- . ':(exclude)seed' > $OUT/patch.diff
 [ -s $OUT/patch.diff ] || cp $WT/seed/patch.diff $OUT/patch.diff
 echo "== suite with the change"; SUITE=$(cargo test --workspace --no-fail-fast --offline 2>&1 | grep -E "^test result" | awk '{p+=$4; f+=$6} END {print p" passed "f" failed"}'); echo "$SUITE"
-DEMO=$WT/seed/demo
+DEMO=$WT/seed/demo; [ -d $WT/demo ] && [ ! -L $WT/demo ] && DEMO=$WT/demo      # the real directory: scripts resolve ../ physically
 echo "== demo with the change"; (cd $DEMO && env -u CARGO_TARGET_DIR timeout 900 ${DEMO_CMD:-cargo run --offline} >/tmp/demo_with.log 2>&1; echo $? > /tmp/demo_with.rc); echo "rc=$(cat /tmp/demo_with.rc)"
 git stash push -q -- cglue cglue-gen cglue-macro cglue-bindgen 2>/dev/null
 echo "== demo without the change"; (cd $DEMO && env -u CARGO_TARGET_DIR timeout 900 ${DEMO_CMD:-cargo run --offline} >/tmp/demo_without.log 2>&1; echo $? > /tmp/demo_without.rc); echo "rc=$(cat /tmp/demo_without.rc)"
